@@ -119,6 +119,36 @@ def gen_cases(ctx):
     return cases, meta
 
 
+def meta_from_line(line):
+    """reconstruct the description of a differential case from its text (used by --replay)"""
+    t = line.split()
+    if t[:1] == ["mat"]:
+        return {"op": "mat"}
+    if len(t) == 4 and t[0] in ("p", "pu", "pb", "d"):
+        return {"op": t[0], "geom": t[1], "prev": unhex(t[2]), "data": unhex(t[3]), "kind": "replay", "fill": 2}
+    if len(t) == 3 and t[0] == "dd":
+        return {"op": "dd", "geom": t[1], "prev": [], "data": unhex(t[2]), "kind": "replay", "fill": 0}
+    return None
+
+
+def ometa_from_line(line):
+    t = line.split()
+    if len(t) == 5 and t[0] == "rt":
+        return (t[1], unhex(t[2]), unhex(t[3]), unhex(t[4]))
+    return None
+
+
+def replay_lines(ctx):
+    if not ctx.replay_in:
+        return None
+    import json
+    d = json.load(open(ctx.replay_in))
+    rep = d.get("replay", {})
+    lines = [rep[k] for k in ("case", "case_b") if isinstance(rep.get(k), str)]
+    ctx.log(f"replaying {len(lines)} recorded case(s) from {ctx.replay_in}")
+    return lines
+
+
 def expected_sites():
     return {"depuncture": {("P1", 368, 488), ("P2", 272, 296), ("P2", 368, 402), ("P3", 368, 420)},
             "puncture": {("P1", 488, 368), ("P2", 296, 272), ("P2", 402, 368), ("P3", 420, 368)},
@@ -129,6 +159,11 @@ def run(ctx):
     exe = ctx.build_cpp("c11_harness", "c11.cpp")
     model = getattr(ctx, "model", None)
     cases, meta = gen_cases(ctx)
+    rl = replay_lines(ctx)
+    if rl is not None:   # --replay: exactly the recorded input, on model and implementation
+        keep = [(l, meta_from_line(l)) for l in rl if meta_from_line(l)]
+        cases = ["mat"] + [l for l, _ in keep]
+        meta = [{"op": "mat"}] + [m for _, m in keep]
     text = "\n".join(cases) + "\n"
     (ctx.workdir / "cases.txt").write_text(text)
     impl_out = model_out = spec_out = ""
@@ -165,13 +200,17 @@ def run(ctx):
         masks[g] = own
     for g, (k, n_in, n_out) in GEOMB.items():
         masks[g] = [spec_p[k][i % len(spec_p[k])] for i in range(n_in * 8)]
-    ctx.sample({"case": cases[1][:100] + "...", "impl": a[1][:100] + "..." if len(a) > 1 else None})
+    if len(cases) > 1:
+        ctx.sample({"case": cases[1][:100] + "...", "impl": a[1][:100] + "..." if len(a) > 1 else None})
 
     reported = set()
+    cur = {"case": None}
 
     def viol(key, text, replay):
         if key not in reported:
             reported.add(key)
+            if cur["case"] and "case" not in replay:
+                replay = dict(replay, case=cur["case"])
             ctx.violation(key, text, replay)
 
     # call-site geometries read by the translator
@@ -205,6 +244,9 @@ def run(ctx):
             break
         out = a[i].split()
         op = m["op"]
+        cur["case"] = c
+        if rl is not None:
+            ctx.log(f"replay: {c[:90]}... -> implementation {a[i][:90]}...")
         if op == "mat":
             got = [unhex(x) for x in out]
             for k in (1, 2, 3):
@@ -245,7 +287,7 @@ def run(ctx):
                 continue
             exp = spread(masks[g], m["data"])
             key = (g, tuple(m["data"]))
-            dgroups.setdefault(key, []).append((m["prev"], y, int(out[1])))
+            dgroups.setdefault(key, []).append((m["prev"], y, int(out[1]), c))
             if y != exp:
                 wrong = [j for j in range(n_in) if j >= len(y) or y[j] != exp[j]]
                 stale = [j for j in wrong if j < len(y) and y[j] == m["prev"][j]]
@@ -273,6 +315,7 @@ def run(ctx):
                 viol("depunctured-wrong-output", f"depunctured<{mm}> [{g}] is not: received values at the kept positions, 0 elsewhere",
                      {"geometry": g, "received": hx(m["data"]), "first_wrong_position": j, "expected": exp[j], "actual": y[j] if y and j < len(y) else None})
     # independence of the prior buffer content, stated directly: same received frame, different pre-fill, same result
+    cur["case"] = None
     for (g, data), runs in dgroups.items():
         ctx.evaluations += 1
         base = runs[0]
@@ -281,7 +324,8 @@ def run(ctx):
                 pos = [j for j in range(len(base[1])) if base[1][j] != other[1][j]]
                 viol("depuncture-stale-output", f"depuncture [{g}] output depends on the previous content of the output buffer at position(s) {pos[:8]}",
                      {"geometry": g, "received": hx(list(data)), "out_prefill_a": hx(base[0]), "out_prefill_b": hx(other[0]),
-                      "differing_positions": pos[:16], "output_a": hx(base[1]), "output_b": hx(other[1]), "count_a": base[2], "count_b": other[2]})
+                      "differing_positions": pos[:16], "output_a": hx(base[1]), "output_b": hx(other[1]), "count_a": base[2], "count_b": other[2],
+                      "case": base[3], "case_b": other[3]})
                 stale_geoms.add(g)
                 break
     for g, text_, rep in count_mismatch:
@@ -301,6 +345,11 @@ def run(ctx):
         for fi, v in enumerate(frames):
             p1 = fills(r, n_out, fi % 3); p2 = fills(r, n_in, (fi // 3) % 3)
             ocases.append(f"rt {g} {hx(p1)} {hx(p2)} {hx(v)}"); ometa.append((g, p1, p2, v))
+    if rl is not None:
+        keep = [(l, ometa_from_line(l)) for l in rl if ometa_from_line(l)]
+        ocases = [l for l, _ in keep]; ometa = [m for _, m in keep]
+    if not ocases:
+        return
     otext = "\n".join(ocases) + "\n"
     (ctx.workdir / "oracle_cases.txt").write_text(otext)
     rc, oout = ctx.run_exe(exe, input_text=otext)
@@ -309,6 +358,9 @@ def run(ctx):
         ctx.tie_broken("c11-harness-oracle-run", f"harness exited {rc}, {len(o)} lines for {len(ocases)} cases")
     for c, (g, p1, p2, v), line in zip(ocases, ometa, o):
         ctx.evaluations += 1
+        cur["case"] = c
+        if rl is not None:
+            ctx.log(f"replay: {c[:90]}... -> implementation {line[:90]}...")
         k, n_in, n_out = GEOM[g]
         t = line.split()
         if len(t) != 3:
